@@ -441,7 +441,8 @@ impl VisitMut for Rewriter {
                 }
                 if let (Some(n), Some(init)) = (&name, &l.init) {
                     if let Expr::MethodCall(m) = strip_parens(&init.expr) {
-                        if m.method == "load_full" && m.args.is_empty() {
+                        // (`load()` without an ordering argument is an arc-swap load: its guard derefs to the content)
+                        if (m.method == "load_full" || m.method == "load") && m.args.is_empty() {
                             self.arc_vars.insert(n.clone());
                         }
                     }
